@@ -322,7 +322,47 @@ fn acceptance(t: &mut Tape, ctx: &mut Ctx) -> CheckResult {
     ctx.class("group:acceptance");
     let sz = ctx.sizes;
     let al = gen::alpha(t, &sz);
-    match t.choice(3) {
+    match t.choice(4) {
+        3 => {
+            // IndexedCoproduct::new / from_semifinite on raw (sizes, codomain, values)
+            let target = t.range(0, 4);
+            let nseg = t.range(0, 4);
+            let mut sizes: Vec<usize> = (0..nseg).map(|_| if target == 0 { 0 } else { t.choice(3) }).collect();
+            let sum: usize = sizes.iter().sum();
+            let mut nvals = sum;
+            let mut cod = sum + 1;
+            match t.weighted(&[3, 1, 1, 1, 1]) {
+                1 => nvals += 1 + t.choice(2),
+                2 if nvals > 0 => nvals -= 1,
+                3 => cod += 1,
+                4 if !sizes.is_empty() => {
+                    let i = t.choice(sizes.len());
+                    sizes[i] += 1;
+                    cod += 1; // sizes stay self-consistent, only the value length is off
+                }
+                _ => {}
+            }
+            let values: Vec<usize> = (0..nvals).map(|_| t.choice(target.max(1))).collect();
+            let target = target.max(1);
+            let nsum: usize = sizes.iter().sum();
+            ctx.set_dump(format!("sizes = {:?} codomain = {cod} values = {:?} -> {target}", sizes, values));
+            let ok_new = cod == nsum + 1 && nsum == values.len();
+            let ok_sf = nsum == values.len();
+            ctx.sub("indexed-coproduct-new-iff");
+            if sizes.iter().all(|&k| k < cod) {
+                let r = IndexedCoproduct::new(sv::ff(sizes.clone(), cod), sv::ff(values.clone(), target));
+                ensure!(ctx, r.is_some() == ok_new, "indexed-coproduct-new-iff", "IndexedCoproduct::new accepted = {} but (codomain = sum+1 and sum = number of values) = {ok_new}", r.is_some());
+                let r = IndexedCoproduct::new(sv::ff(sizes.clone(), cod), sv::sf(values.iter().map(|&v| Ob(v as u32)).collect::<Vec<_>>()));
+                ensure!(ctx, r.is_some() == ok_new, "indexed-coproduct-new-iff", "IndexedCoproduct::new (label values) accepted = {} want {ok_new}", r.is_some());
+            }
+            let r = IndexedCoproduct::from_semifinite(sv::sf(sizes.clone()), sv::ff(values.clone(), target));
+            ensure!(ctx, r.is_some() == ok_sf, "indexed-coproduct-new-iff", "from_semifinite accepted = {} but sizes sum to {nsum} and there are {} values", r.is_some(), values.len());
+            ctx.class_if(!ok_new, "planted-flaw");
+            if !ok_new || nseg >= 2 {
+                ctx.nontrivial(&("ic", &sizes, cod, &values, target));
+            }
+            Ok(())
+        }
         0 => {
             // FiniteFunction::new
             let target = t.range(0, 5);
